@@ -44,7 +44,21 @@ def register(reg):
                       f'spec_cfg_same_but_semantics(self._active_config, {L})',
                       'self._config == old_self._config'],
             requires=['self._active_config == self._config', 'isinstance(settings, dict)', "'start' not in settings"],
-            modifies=['self._active_config', 'self._memos', 'self._results', 'self.states', 'self.keywords', 'self.semantics', 'self.tracer'],
+            modifies=['self._active_config', 'self._memos', 'self._results', 'self.states', 'self.keywords', 'self.semantics', 'self.tracer', 'self.textlen'],
+            ensures=[('property', 'self._active_config == self._config'), ('property', 'self._config == old_self._config')],
+            raises={'BaseException': ['self._active_config == self._config', 'self._config == old_self._config']},
+            propagates=['self._active_config == self._config', 'self._config == old_self._config'])
+
+    # ParserEngine.parse: the value of the start rule of the configuration in force, parsed from the frame bound() set up;
+    # the context is idle again afterwards (bound() is interpreted at the `with` site, its own contract is proved above)
+    contract(reg, 'tatsu/config.py:ParserConfig.effective_start_rule_name', ['C09', 'C10'], {'self': 'ConfigR'}, ret='Val', verify=False, pure=True,
+             modifies=[], ensures=['result is None or isinstance(result, str)'], note='start, else the deprecated start_rule / rule_name fields: a function of the configuration')
+    for variant, tsort in (('#str', 'str'), ('#text', 'opaque:TextObj')):
+        contract(
+            reg, f'{E}:ParserEngine.parse{variant}', ['C10'],
+            {'self': 'Ctx', 'text': tsort, 'start': 'Val', 'config': 'any', 'asmodel': 'bool', 'settings': 'Val'}, ret='Val',
+            requires=['self._active_config == self._config', 'isinstance(settings, dict)', "'start' not in settings"],
+            modifies=['self._active_config', 'self._memos', 'self._results', 'self.states', 'self.keywords', 'self.semantics', 'self.tracer', 'self.textlen'],
             ensures=[('property', 'self._active_config == self._config'), ('property', 'self._config == old_self._config')],
             raises={'BaseException': ['self._active_config == self._config', 'self._config == old_self._config']},
             propagates=['self._active_config == self._config', 'self._config == old_self._config'])
